@@ -988,10 +988,16 @@ def choose_signed(d, ws):
 def margin_signed(d, ws):
     W = sum(ws, Fraction(0))
     acc, m = Fraction(0), Fraction(10)
+    seen_nonzero = False
     for w in ws:
         acc += w
-        if acc != 0:
+        # a cumulative bound that is exactly 0 in rationals is exact in binary64 only while nothing non-zero has been
+        # added yet; after cancellation (e.g. -0.9 + 0.7 + 0.2) the float bound is a tiny non-zero number, so a draw of
+        # exactly 0.0 sits ON that boundary (thorough seed 41 found this false alarm)
+        if acc != 0 or seen_nonzero:
             m = min(m, abs(d - acc / W))
+        if w != 0:
+            seen_nonzero = True
     return m
 
 
